@@ -270,6 +270,39 @@ func c02Unit(name string, lvl int) core.Unit {
 		r.Sample("single", map[string]any{"eco": name, "range": syn.Ops[0] + u.Strs[A[len(A)/2]], "probe": u.Strs[V[len(V)/2]]})
 		// conjunctions and disjunctions
 		A2 := stride(A, nA2)
+		// siblings: admissible members that differ from an A2 member only in their LAST number
+		// (rc1 / rc3, -r1 / -r2): de-duplication keys that forget that number merge two bounds
+		{
+			stem := func(s string) string {
+				j := len(s)
+				for j > 0 && s[j-1] >= '0' && s[j-1] <= '9' {
+					j--
+				}
+				if j == len(s) || j == 0 {
+					return ""
+				}
+				return s[:j]
+			}
+			inA2 := map[int]bool{}
+			stems := map[string]bool{}
+			for _, a := range A2 {
+				inA2[a] = true
+				if st := stem(u.Strs[a]); st != "" && strings.ContainsAny(st, "abcdefghijklmnopqrstuvwxyz") {
+					stems[st] = true
+				}
+			}
+			extra := 0
+			for _, i := range adm {
+				if extra >= 8 {
+					break
+				}
+				if !inA2[i] && stems[stem(u.Strs[i])] {
+					A2 = append(A2, i)
+					inA2[i] = true
+					extra++
+				}
+			}
+		}
 		V2 := stride(V, nV2)
 		for _, a := range A2 {
 			found := false
@@ -280,6 +313,39 @@ func c02Unit(name string, lvl int) core.Unit {
 			}
 			if !found {
 				V2 = append(V2, a)
+			}
+		}
+		// three constraints joined by two DIFFERENT separators (splitters that re-use one buffer)
+		if len(syn.And) >= 2 {
+			A3 := stride(A2, 5)
+			ops3 := []string{">=", "<", syn.Nots0()}
+			for _, s1 := range syn.And {
+				for _, s2 := range syn.And {
+					if s1 == s2 {
+						continue
+					}
+					for _, a1 := range A3 {
+						for _, a2 := range A3 {
+							for _, a3 := range A3 {
+								for _, o3 := range ops3 {
+									if o3 == "" {
+										continue
+									}
+									b1, b2, b3 := u.Vers[a1], u.Vers[a2], u.Vers[a3]
+									o3 := o3
+									rs := ">=" + u.Strs[a1] + s1 + "<" + u.Strs[a2] + s2 + o3 + u.Strs[a3]
+									check(rs, func(v eco.Ver) (bool, bool) {
+										c1, ok1 := cmp(v, b1)
+										c2, ok2 := cmp(v, b2)
+										c3, ok3 := cmp(v, b3)
+										return gen.Sat(">=", c1) && gen.Sat("<", c2) && gen.Sat(o3, c3), ok1 && ok2 && ok3
+									}, V2, "and3", []string{">=", u.Strs[a1], s1, "<", u.Strs[a2], s2, o3, u.Strs[a3]})
+									r.Add("states", 1)
+								}
+							}
+						}
+					}
+				}
 			}
 		}
 		for _, sep := range syn.And {
@@ -394,6 +460,11 @@ func init() {
 				} else {
 					want = w1 || w2
 				}
+			case "and3":
+				w1, ok1 := sat(parts[0], parts[1])
+				w2, ok2 := sat(parts[3], parts[4])
+				w3, ok3 := sat(parts[6], parts[7])
+				want, ok = w1 && w2 && w3, ok1 && ok2 && ok3
 			case "and-or":
 				syn := gen.SyntaxTable[v.Scope]
 				w1, ok1 := sat(syn.Ops[0], parts[0])
@@ -418,7 +489,7 @@ func init() {
 				"distinct_nontrivial":           r.Counters["true_results"],
 			}
 		},
-		Rule:        "per ecosystem: every comparator of the documented syntax table x every bound of a stride sub-universe of U_E (plus one bound per distinct letter, every member with a component of 5 or more digits, and every accepted version whose identifiers contain a word of some range syntax: and/or/x/to/v... alone or embedded, under 14 separator templates); every accepted member of the one-slot substitution family of the ecosystem's typical shapes x every comparator x (40 stride probes + the bound itself + up to 3 Compare-equal respellings of it) x every probe; every comparator pair x AND separator x bound pair x probe; every comparator pair x OR separator; (x AND y) OR z. Expected value computed from the real Compare. states = distinct range strings built; transitions = range parses + Contains calls; distinct_nontrivial = evaluations whose result is true (range and probe interact non-vacuously).",
+		Rule:        "per ecosystem: every comparator of the documented syntax table x every bound of a stride sub-universe of U_E (plus one bound per distinct letter, every member with a component of 5 or more digits, and every accepted version whose identifiers contain a word of some range syntax: and/or/x/to/v... alone or embedded, under 14 separator templates); every accepted member of the one-slot substitution family of the ecosystem's typical shapes x every comparator x (40 stride probes + the bound itself + up to 3 Compare-equal respellings of it) x every probe; every comparator pair x AND separator x bound pair x probe (the bound sample is completed with siblings that differ only in their last number); three constraints joined by two different AND separators; every comparator pair x OR separator; (x AND y) OR z. Expected value computed from the real Compare. states = distinct range strings built; transitions = range parses + Contains calls; distinct_nontrivial = evaluations whose result is true (range and probe interact non-vacuously).",
 		Assumptions: []string{"bounds beginning with a comparator character or containing separator characters are out of scope (property text)", "syntax table (comparators, separators) is written from the documentation; maven has no comparator syntax"},
 	})
 }
